@@ -120,13 +120,14 @@ func GaugeKey(name string, tags gostatsd.Tags) string {
 
 // Statser captures gauges, counts and reports; the harness owns the RegisterFlush channels.
 type Statser struct {
-	mu      sync.Mutex
-	base    gostatsd.Tags
-	root    *Statser
-	Gauges  map[string]float64
-	GaugeN  map[string]int
-	Counts  map[string]float64
-	Flushes []chan time.Duration
+	mu       sync.Mutex
+	base     gostatsd.Tags
+	root     *Statser
+	Gauges   map[string]float64
+	GaugeN   map[string]int
+	Counts   map[string]float64
+	Flushes  []chan time.Duration
+	Notified int64
 }
 
 func NewStatser() *Statser {
@@ -135,7 +136,12 @@ func NewStatser() *Statser {
 	return s
 }
 
-func (s *Statser) NotifyFlush(ctx context.Context, d time.Duration) {}
+// NotifyFlush counts flush notifications (the flusher calls it at the start of every flush).
+func (s *Statser) NotifyFlush(ctx context.Context, d time.Duration) {
+	atomic.AddInt64(&s.root.Notified, 1)
+}
+
+func (s *Statser) NotifiedCount() int64 { return atomic.LoadInt64(&s.root.Notified) }
 
 // RegisterFlush hands out an unbuffered channel; TriggerFlush sends on all of them (blocking).
 func (s *Statser) RegisterFlush() (<-chan time.Duration, func()) {
@@ -181,6 +187,9 @@ func (s *Statser) Report(name string, value *uint64, tags gostatsd.Tags) {
 
 func (s *Statser) TimingMS(name string, ms float64, tags gostatsd.Tags)            {}
 func (s *Statser) TimingDuration(name string, d time.Duration, tags gostatsd.Tags) {}
+
+// NewTimer returns a timer bound to a null statser (stats.Timer cannot be constructed outside its package and
+// TaggedStatser.NewTimer delegates back to the wrapped statser), so timer gauges are not captured.
 func (s *Statser) NewTimer(name string, tags gostatsd.Tags) *stats.Timer {
 	return stats.NewNullStatser().NewTimer(name, tags)
 }
